@@ -29,7 +29,7 @@ static void edge_info(double lat, long long& dedge, int& nb) {
   double d = uselo ? dl : dh;
   nb = uselo ? b - 1 : b + 1; if (nb < -10) nb = -10; if (nb > 9) nb = 9;
   long double q = (long double)d * 1e15L;
-  dedge = q > 1e9L ? 1000000000LL : (long long) q;
+  dedge = !(q <= 1e9L) ? 1000000000LL : (long long) q;
 }
 
 // coordinate -> limbs of half-micrometres (base 1e9); grid=false when not near an integer
@@ -170,7 +170,7 @@ static void header() {
 // ------------------------------------------------------------------ random records
 static long long excess_nm(double p, double c, double cell) {   // (|p - c| - cell/2) in nm, clipped
   long double ex = (fabsl((long double)p - c) - (long double)cell / 2) * 1e9L;
-  if (ex > 1e9L) return 1000000000LL; if (ex < -1e9L) return -1000000000LL; return (long long) ceill(ex);
+  if (!(ex <= 1e9L)) return 1000000000LL; /* NaN counts as outside */ if (ex < -1e9L) return -1000000000LL; return (long long) ceill(ex);
 }
 static void do_record(uint64_t seed, long long n) {
   vt::Rng g(seed), g2(seed * 7919 + 17);      // g2: separate stream for the supplied-latitude records
